@@ -49,13 +49,13 @@ CLAIMS = {
             "(shape from errors.Join, type, Value, Reason/Type/bounds), checks non-nil exported pointer types and the `cors: ` message prefix on the Go side.",
             '6/C05', 'Message texts are produced by fmt.Sprintf in Go and are checked by the harness only (prefix), not modelled.'),
     'C06': ('proof', 'Lean 4 theorem (validating Config() succeeds and yields the same handler function; stored-entries semantics of the tree, render = inverse of parse, round trips of the set folds and max-age) + relational round-trip suite computed on the Go side + history correspondence',
-            "Theorem C06_roundtrip (Props/C06.lean): for every accepted configuration whose origin patterns use brackets only around hosts containing a colon, newInternalConfig accepts newConfig icfg, the resulting internal configuration "
+            "Theorem C06_roundtrip (Props/C06.lean): for every accepted configuration (no exception: Proofs/RenderIdem.lean shows that parsing the rendering of an accepted pattern gives the same pattern, also for an IPv4 address written in brackets, which is rendered without them), newInternalConfig accepts newConfig icfg, the resulting internal configuration "
             "gives Serve.serve icfg' = Serve.serve icfg (the same function of debug flag, request and pre-existing headers), and Config() of it agrees with Config() of the original on every field other than Origins (whose elements are among the configured patterns and build an equivalent tree). "
             "Theorem C06_stable: the Config() of that second middleware is accepted too and from then on the value is a fixed point, literally equal in every field, Origins included (the property's last sentence), whatever redundant or mutually subsuming patterns were listed and in whatever order. Its proof states what Tree.Insert does to the multiset of stored entries without the tree (Proofs/StoreAbs.lean: a stored entry makes the insertion a no-op, or the new entry is stored after removing the ports its wildcard port supersedes), proves by mutual induction over the radix tree that Node.insert realises exactly that up to permutation under the tree invariant (StoreOwn.lean, StoreExact.lean), shows that the surviving entries never conflict pairwise and that re-inserting them in their original order stores all of them again (Stable.lean), and uses that Elems sorts, so the survivors of a sorted insertion are re-inserted in their original order (OriginsStable.lean). "
             "C06_ctor: zero value + Reconfigure(&c) and NewMiddleware(c) are the same function of c; C06_flags, C06_status, C06_render_ipv6. Proof layers: Proofs/Elems.lean (stored entries: elems renders them, the tree denotes the union of their coverages, "
             "insertion stores only the new entry), Render.lean (Itoa vs the digit readers), RoundTrip.lean (rendering an accepted pattern gives back the string it was parsed from), TreeRoundTrip.lean, CfgRoundTrip.lean, C06Assembly.lean. "
             "Tie: the `roundtrip` suite builds four middlewares (from c, from Config(), zero+Reconfigure, Reconfigure(Config())) and compares their Go responses pairwise in both debug modes plus Config() stability; the `history` suite includes Reconfigure(Config()) steps; the `validate` suite compares Config() with the model's.",
-            '6/C06', 'Not proved: configurations with bracketed IPv4 literals (excluded by the bracket hypothesis of C06_roundtrip / C06_stable); they rest on the roundtrip suite.'),
+            '6/C06', 'Nothing in the statement is left to the tie alone; the theorems keep one hypothesis about the IPv6 oracle (it accepts no text starting with `*`), which C06_stable_std discharges for the modelled net/netip that the driver uses.'),
     'C07': ('proof', 'Lean 4 invariant proof over a lock-level small-step model (any number of threads, any schedule) with programs regenerated from the source + schedule-point harness + race-detector stress',
             "Theorems C07_drf (in every reachable state a thread about to write a guarded field has no concurrent reader/writer of a guarded field) and C07_atomic (when a reader leaves its critical section everything it read there equals the shared state "
             "at that instant and no writer is inside a critical section), by induction over arbitrary traces of arbitrarily many threads running well-locked programs (Props/C07.lean, Model/Conc.lean); C07_facts / C07_wrap_snapshot / C07_only_these / C07_immutable "
